@@ -527,8 +527,8 @@ fn check(ctx: &Ctx, c: &Case) -> CaseResult {
 }
 
 fn run(ctx: &Ctx) {
-    ctx.run("histories", case_strategy(), ctx.cases(480, 30_000), |c: &Case| check(ctx, c));
+    ctx.run("histories", case_strategy(), ctx.cases(480, 8_000), |c: &Case| check(ctx, c));
     // identity objects: same clause over the identity histories of C04's generators
-    ctx.run("identity-rounds", super::c04::rounds_cases(), ctx.cases(240, 15_000), |c| super::c04::check_clean_history(ctx, c));
-    ctx.run("identity-histories", super::c04::history_cases(10), ctx.cases(160, 10_000), |c| super::c04::check_clean_history(ctx, c));
+    ctx.run("identity-rounds", super::c04::rounds_cases(), ctx.cases(240, 4_000), |c| super::c04::check_clean_history(ctx, c));
+    ctx.run("identity-histories", super::c04::history_cases(10), ctx.cases(160, 3_000), |c| super::c04::check_clean_history(ctx, c));
 }
